@@ -73,7 +73,8 @@ fn record2(a: Expr, c: Expr, n1: &str, n2: &str) -> Expr {
 fn callee_body(behaviour: usize) -> Expr {
     match behaviour {
         0 => prim("+", var("x"), Expr::Int(1)),
-        1 | 6 => Expr::Error("boom".into()),
+        // monomorphic (Int -> Int): the left operand is evaluated, then `error` is called
+        1 | 6 => prim("+", var("x"), Expr::Error("boom".into())),
         2 => Expr::Match(b(var("x")), vec![(Pat::Int(0), Expr::Int(1))]),
         3 => prim("/", var("x"), Expr::Int(0)),
         4 | 5 => Expr::If(
